@@ -74,11 +74,12 @@ MechIntended == [ nodeFold |-> "after_populate",  centreUnits |-> "converted",
 \* so the code as read now makes the same choices as MechIntended.  MechBeforeFixes is the code
 \* as first read: the check explores it too and requires TLC to find failing states there (the
 \* model can tell the difference), and the revert mutants reproduce it in the real code.
-\* recentre = "reuse_x" is the code as read (round 2): _populate_face_centroids(repopulate=True)
-\* recomputes from the nodes only when no face_x is stored.
+\*   b0fe37e2  construct_face_centers always recomputes from the nodes recentre        reuse_x -> from_nodes
+\* (recentre = "reuse_x", the refuted variant: _populate_face_centroids(repopulate=True) recomputed from
+\*  the nodes only when no face_x was stored; it lives on in MechBeforeFixes)
 MechObserved == [ nodeFold |-> "after_populate",  centreUnits |-> "converted",
                   centreNormalize |-> TRUE,       normCheck |-> "per_kind",
-                  recentre |-> "reuse_x" ]
+                  recentre |-> "from_nodes" ]
 MechBeforeFixes == [ nodeFold |-> "before_populate", centreUnits |-> "raw_degrees",
                      centreNormalize |-> FALSE,      normCheck |-> "node_only",
                      recentre |-> "reuse_x" ]
